@@ -204,3 +204,43 @@ func TestKnownDeleteFilesNonLastIndexDefault(t *testing.T) {
 	}
 	t.Fatalf("%s", what)
 }
+
+// TestKnownDeleteRepoLeftover: a repository holding the file list of an interrupted upload (no
+// bundle.yaml). Property: "Deleting a repository removes all of its bundles, file lists and labels
+// ...; renaming moves every bundle ... and label to the new name and removes the old one".
+func TestKnownDeleteRepoLeftover(t *testing.T) {
+	t.Setenv("VERIF_NO_EXCLUDE", "1")
+	var failures []string
+	for _, ops := range [][]opSpec{
+		{{Kind: "delrepo", Repo: "a"}},
+		{{Kind: "rename", Repo: "a", New: "a1"}},
+		{{Kind: "delrepo", Repo: "abc"}},
+	} {
+		repos := pinnedRepos()
+		repos[0].Leftover = true // "a"
+		repos[3].Leftover = true // "abc": nothing but the leftover
+		c := caseT{Leaf: 4096, EPF: 1000, Pool: pinnedPool, Repos: repos, Ops: ops}
+		err, hung, panicked := hx.Guard(120*time.Second, func() error {
+			_, e := runCase(c)
+			return e
+		})
+		if hung || panicked {
+			t.Fatalf("%v (hung=%v panicked=%v)", err, hung, panicked)
+		}
+		if err != nil {
+			if !strings.Contains(err.Error(), "objects removed from the metadata stores differ") || !strings.Contains(err.Error(), "bundle-files-0.yaml") || strings.Contains(err.Error(), "unexpected") {
+				t.Fatalf("unexpected kind of failure: %v", err)
+			}
+			failures = append(failures, err.Error())
+		}
+	}
+	if len(failures) == 0 {
+		return // repaired
+	}
+	what := fmt.Sprintf("file lists left by an interrupted upload survive DeleteRepo / RenameRepo under the old repository name (%d of 3 pinned cases); first: %s", len(failures), failures[0])
+	if hx.Listed(KnownLeftover) {
+		stats.KnownFinding(KnownLeftover, what)
+		return
+	}
+	t.Fatalf("%s", what)
+}
